@@ -1207,10 +1207,6 @@ impl<'info> Evaluator {
                 )
             }
             Some(HelperForm::Defun(inline, defun)) => {
-                if !inline && only_inline {
-                    return Ok(call.original.clone());
-                }
-
                 let translated_tail = if let Some(t) = call.tail.as_ref() {
                     Some(self.shrink_bodyform_visited(
                         allocator,
@@ -1223,6 +1219,27 @@ impl<'info> Evaluator {
                 } else {
                     None
                 };
+
+                if !inline && only_inline {
+                    // The call stays, but its arguments are expressions in the
+                    // bindings in force here (inline parameters, let names).
+                    let mut call_vec = vec![call.args[0].clone()];
+                    for a in arguments_to_convert.iter() {
+                        call_vec.push(self.shrink_bodyform_visited(
+                            allocator,
+                            visited,
+                            prog_args.clone(),
+                            env,
+                            a.clone(),
+                            only_inline,
+                        )?);
+                    }
+                    return Ok(Rc::new(BodyForm::Call(
+                        call.loc.clone(),
+                        call_vec,
+                        translated_tail,
+                    )));
+                }
 
                 let argument_captures_untranslated = build_argument_captures(
                     &call.loc.clone(),
